@@ -27,6 +27,7 @@ type c02Cfg struct {
 	MaxProofs  int64
 	Sparse     bool // skip heights at which nothing can happen (large windows)
 	Others     []c02Other
+	Lapsers    int   // provers that join the file right after it is posted and never prove again (they get dropped at reward blocks)
 	PayOnce    int64 // > 0: the main file is paid once and expires this many blocks after its start (the chain demands >= 1 day)
 }
 
@@ -83,6 +84,16 @@ func c02Run(c *chain.Chain, cfg c02Cfg) (out c02Out) {
 	if root, err := utilsRoot(content, cfg.ChunkSize); err != nil || !bytes.Equal(root, f.Merkle) {
 		return c02Out{sig: "C02/buildtree-root", msg: fmt.Sprintf("utils.BuildTree root %x differs from the reference tree root %x (err %v)", root, f.Merkle, err)}
 	}
+	// provers that take a slot first and then fall silent: the reward block drops them, which must not touch the honest ones
+	for k := 0; k < cfg.Lapsers; k++ {
+		l := chain.Acc(5 + k)
+		if r := w.initProvider(l, fmt.Sprintf("https://lapser%d.example%d.org", k, k)); !r.OK() {
+			return c02Out{sig: "C02/harness", msg: "init provider failed: " + r.String()}
+		}
+		if ok, emsg, _ := w.honestProve(l, f); !ok {
+			return c02Out{sig: "C02/honest-proof-rejected", msg: "the first proof of a further holder was rejected: " + emsg}
+		}
+	}
 	type honest struct {
 		acc          chain.Account
 		f            *sFile
@@ -93,7 +104,7 @@ func c02Run(c *chain.Chain, cfg c02Cfg) (out c02Out) {
 		lastAccepted int64
 	}
 	provers := []*honest{{acc: prover, f: f, start: cfg.S, join: cfg.JoinWindow, offsets: cfg.Offsets, lastAccepted: -1}}
-	if cfg.JoinWindow > 0 && cfg.MaxProofs >= 2 {
+	if cfg.JoinWindow > 0 && cfg.MaxProofs-int64(cfg.Lapsers) >= 2 { // room for the helper besides the main prover and the lapsers
 		// a second honest holder keeps the file alive from window 0 on (it is held to the same standard)
 		helper := chain.Acc(2)
 		if r := w.initProvider(helper, "https://helper.example.org"); !r.OK() {
@@ -259,6 +270,10 @@ func genC02(rt *rapid.T) c02Cfg {
 		cfg.Offsets = append(cfg.Offsets, off)
 		cfg.Gas = append(cfg.Gas, rapid.OneOf(rapid.Just(uint64(0)), rapid.Uint64Range(0, 1<<40)).Draw(rt, fmt.Sprintf("gas%d", i)))
 	}
+	if rapid.IntRange(0, 2).Draw(rt, "lapsers") == 0 {
+		cfg.Lapsers = rapid.IntRange(1, 2).Draw(rt, "howManyLapsers")
+		cfg.MaxProofs += int64(cfg.Lapsers)
+	}
 	// a file paid once, whose paid period ends while the schedule is still running (large windows only: the chain demands
 	// at least a day, 14400 blocks); an expired file is a file like any other for its provers
 	if cfg.Sparse && rapid.IntRange(0, 2).Draw(rt, "payOnce") == 0 {
@@ -284,15 +299,18 @@ func genC02(rt *rapid.T) c02Cfg {
 
 func TestC02(t *testing.T) {
 	rec := ev.For("C02")
-	rec.Describe("fork-mode schedules: file of 1..6*chunk+rest bytes (all residues incl. exact multiples and 1-byte files), chunk size 1..64 or 1024, proof window W and check window C in [2,24], file start S in [1,3WC], an honest registered provider joining in window 0 or 1 and proving once per file window at generated offsets (0, W-1 and 'same height as a reward block' weighted up) with generated block-gas seeds for the next challenge, run through the window after the last proof; a third of the large-window schedules use a file paid once that expires (>= 14400 blocks after its start) while the schedule is still running; in half of the schedules the same provider also proves, once per window, one or two further files posted 1..2W blocks later (windows out of phase). Oracle: every challenge < ceil(size/chunk); every honest proof (tree built from the property's leaf encoding, cross-checked with utils.BuildTree's root) gets Success=true; after every reward block the prover is still listed and its BurnedContracts is \"0\". Thorough tier additionally enumerates exhaustively W,C in [2,9], S in [1,WC], join window {0,1}, three windows with offsets {0, W/2, W-1}. Non-trivial = a reward block judged the non-young file while the last accepted proof lay in the previous window; distinct = distinct configurations.",
+	rec.Describe("fork-mode schedules: file of 1..6*chunk+rest bytes (all residues incl. exact multiples and 1-byte files), chunk size 1..64 or 1024, proof window W and check window C in [2,24], file start S in [1,3WC], an honest registered provider joining in window 0 or 1 and proving once per file window at generated offsets (0, W-1 and 'same height as a reward block' weighted up) with generated block-gas seeds for the next challenge, run through the window after the last proof; a third of the large-window schedules use a file paid once that expires (>= 14400 blocks after its start) while the schedule is still running; a third of the schedules start with one or two further provers that take a slot and never prove again; in half of the schedules the same provider also proves, once per window, one or two further files posted 1..2W blocks later (windows out of phase). Oracle: every challenge < ceil(size/chunk); every honest proof (tree built from the property's leaf encoding, cross-checked with utils.BuildTree's root) gets Success=true; after every reward block the prover is still listed and its BurnedContracts is \"0\". Thorough tier additionally enumerates exhaustively W,C in [2,9], S in [1,WC], join window {0,1}, three windows with offsets {0, W/2, W-1}. Non-trivial = a reward block judged the non-young file while the last accepted proof lay in the previous window; distinct = distinct configurations.",
 		"the owner holds a plan bought by a real BuyStorage; CollateralPrice lowered by parameter change so the provider can register")
-	c := chain.New(chain.GenesisOpts{NumAccounts: 3, Balance: sdk.NewCoins(sdk.NewInt64Coin("ujkl", 1_000_000_000_000))})
+	c := chain.New(chain.GenesisOpts{NumAccounts: 8, Balance: sdk.NewCoins(sdk.NewInt64Coin("ujkl", 1_000_000_000_000))})
 	defer c.Close()
 
 	record := func(cfg c02Cfg, o c02Out) {
 		rec.Count(fmt.Sprintf("proofs=%d", o.proofs))
 		if cfg.PayOnce > 0 {
 			rec.Count("pay-once-file-running-past-its-expiry")
+		}
+		if cfg.Lapsers > 0 {
+			rec.Count("files-with-lapsing-fellow-provers")
 		}
 		if o.others > 0 {
 			rec.Count(fmt.Sprintf("further-files=%d", o.others))
